@@ -378,7 +378,8 @@ class Ctx:
             "wall_s": wall,
             "violations": len(self.violations),
         }
-        if not self.replay:
+        # evidence is only written by runs against /repo itself (not replays, not scratch-worktree runs)
+        if not self.replay and REPO == "/repo" and not os.environ.get("VERIF_NO_EVIDENCE"):
             with open(os.path.join(VERIF, "evidence", "%s.json" % self.pid), "w") as f:
                 json.dump(ev, f, indent=1, default=str)
         for d in self.drift[:10]:
